@@ -113,6 +113,15 @@ def split_location(loc, registered_all):
         # pre-existing fragment text of the target (if any) is the prefix before the first protocol parameter
         idx = next(i for i, (k, _) in enumerate(fpairs) if k in PROTO)
         target = up.urlunsplit((u.scheme, u.netloc, u.path, u.query, url_encode(fpairs[:idx]) if idx else ""))
+        # as for query responses: a registered URI with the same parameters (the same decoded query) is that URI, however its query
+        # is spelled in the Location (the RFC 9207 extension re-encodes it when it adds iss: "a%20b" becomes "a+b")
+        if not idx:
+            base = up.urlunsplit((u.scheme, u.netloc, u.path, "", ""))
+            qp = up.parse_qsl(u.query, keep_blank_values=True)
+            cands = [r for r in registered_all if up.urlunsplit(up.urlsplit(r)[:3] + ("", "")) == base
+                     and up.parse_qsl(up.urlsplit(r).query, keep_blank_values=True) == qp and not up.urlsplit(r).fragment]
+            if cands:
+                target = cands[0]
         return target, fpairs[idx:], True
     qpairs = up.parse_qsl(u.query, keep_blank_values=True)
     idx = next((i for i, (k, _) in enumerate(qpairs) if k in ("code", "error", "token_type", "access_token", "expires_in", "id_token")), len(qpairs))
